@@ -63,7 +63,7 @@ def ref_step(t, parts):
     return t
 
 
-def ref_iterate(t0, t1, step, cap=2000):
+def ref_iterate(t0, t1, step, cap=4000):
     """t0, step(t0), ... while inside the closed span; None when the step does not point from t0 towards t1"""
     if t0 == t1:
         return [t0]
@@ -100,7 +100,7 @@ _ord = st.integers(datetime.date(1950, 1, 1).toordinal(), datetime.date(2050, 1,
 
 @st.composite
 def _case(draw):
-    kind = draw(st.sampled_from(['int', 'int', 'td_days', 'td_intraday', 'd', 'w', 'b', 'b', 'month', 'month', 'hns', 'compound', 'compound', 'equal']))
+    kind = draw(st.sampled_from(['int', 'int', 'td_days', 'td_intraday', 'd', 'w', 'b', 'b', 'month', 'month', 'hns', 'compound', 'compound', 'equal'] * 3 + ['long']))
     o = draw(_ord)
     right = draw(st.sampled_from([True] * 7 + [False]))        # bump points towards t1?
     back = draw(st.booleans())                                     # t1 before t0?
@@ -108,6 +108,12 @@ def _case(draw):
     spec = dict(kind=kind, back=back, right=right, route=route)
     sgn = -1 if back else 1
     bs = sgn if right else -sgn                                    # sign of the bump
+    if kind == 'long':         # ranges of 1000-1500 elements: size-dependent paths
+        n = draw(st.integers(1000, 1500))
+        b = draw(st.sampled_from(['int', 'd', 'b', 'td']))
+        bump = {'int': bs, 'd': '%s1d' % ('-' if bs < 0 else ''), 'b': '%s1b' % ('-' if bs < 0 else ''), 'td': ['td', bs * 86400]}[b]
+        spec.update(t0=[o, 0], span_s=sgn * n * 86400, bump=bump, route='drange')
+        return spec
     if kind == 'equal':
         spec.update(t0=[o, draw(st.sampled_from([0, 3600]))], span_s=0, bump=draw(st.sampled_from([1, -1, '1d', '-1b', '1m', ['td', 3600], '1m1d'])))
         spec['route'] = 'drange'
@@ -241,6 +247,8 @@ def run_drange(spec):
         s2, r2 = run(other)
         check((s2, r2 if s2 == 'ok' else None) == (status, res if status == 'ok' else None), '%s and the same call with %r disagree: %s vs %s', what, other, short(res, 150), short(r2, 150))
     n = len(exp) if exp else 0
+    if n >= 1000:
+        pass
     cls = ['kind=' + kind, 'route=' + spec['route'], 'wrong_direction_or_zero' if exp is None else 'n=%s' % ('0' if n == 0 else '1-2' if n < 3 else '3+')]
     if spec['back']:
         cls.append('t1<t0')
